@@ -756,7 +756,8 @@ ARGV = {
     "TB": ["tab()", "tab(1, true)"],
     "TN": ["tab()", "tab(1, 1.5)"],
     "O": ["o", "o2", "onull", "fwrong()", "vwrong", "fown()"],
-    "VL": ["sv"], "VX": ["xv"], "VR": ["rv"], "VT": ["tv"],
+    # variables handed over as INOUT arguments, in every state a script can leave them in
+    "VL": ["sv", "svn", "svf"], "VX": ["xv", "xvf"], "VR": ["rv"], "VT": ["tv", "tvf", "tvn", "tvo"],
 }
 METHODS = {
     "csv": ('csv(",")', [("serialize", ["R"]), ("serialize", ["TL"]), ("serialize", ["TB"]), ("serialize", ["TN"]), ("deserialize", ["L", "VT"]),
@@ -772,7 +773,11 @@ METHODS = {
     "sqlite3": ('sqlite3(path)', [("open", ["L"]), ("close", []), ("isopen", []), ("query", ["L"]), ("query", ["L", "R"]), ("exec", ["L"]), ("exec", ["L", "R"]),
                                   ("errmsg", []), ("prepare", ["L"]), ("bind", ["R"]), ("execute", []), ("header", []), ("fetch", ["VR"]), ("finalize", [])]),
 }
-STATES = {"fresh": "", "closed": "zz = o.close();", "null-object": "o = null;"}
+STATES = {"fresh": "", "closed": "zz = o.close();", "null-object": "o = null;",
+          # sqlite3 only: a statement is prepared / was stepped / the connection was closed or reopened under it
+          "prepared": 'zz = o.prepare("select 1 union select 2");', "stepped": 'zz = o.prepare("select 1 union select 2"); zz = o.execute(); zz = o.fetch(rv);',
+          "prepared-closed": 'zz = o.prepare("select 1"); zz = o.close();', "prepared-reopened": 'zz = o.prepare("select 1"); zz = o.close(); zz = o.open(path);',
+          "finalized": 'zz = o.prepare("select 1"); zz = o.finalize();'}
 SQL_L = ['"select 1"', '"create table if not exists z(a)"', '"insert into z values(?)"', '"not sql at all"', '""', "str()"]
 
 
@@ -782,6 +787,8 @@ def lattice_gen(tier):
         for mod, (ctor, methods) in METHODS.items():
             for sname, sprep in STATES.items():
                 if sname == "closed" and mod in ("csv", "utf8"):
+                    continue
+                if sname in ("prepared", "stepped", "prepared-closed", "prepared-reopened", "finalized") and mod != "sqlite3":
                     continue
                 for mname, kinds in methods:
                     doms = []
@@ -794,7 +801,8 @@ def lattice_gen(tier):
                             doms.append(ARGV[kd])
                     for args in itertools.product(*doms) if doms else [()]:
                         path = os.path.join(sdir(), "l-%d-%d" % (os.getpid(), n % 64))
-                        prog = "import %s; o = %s; %s sv = \"\"; xv = raw(); rv = tup(); tv = tab(0, \"\"); zz = 0;" % (mod, ctor, sprep)
+                        prog = ('import %s; o = %s; sv = ""; xv = raw(); rv = tup(); tv = tab(0, ""); zz = 0; svn = str(); svf = "abc"; xvf = raw("ab"); tvf = tab(1, "a"); '
+                                'tvn = tab(2, str()); tvo:table; %s' % (mod, ctor, sprep))
                         if mod == "utf8":
                             # objects to offer where a utf8 object is expected: own, another one, null, and objects of another module that
                             # reach the call through a function whose declared result type is utf8
